@@ -93,14 +93,22 @@ Record SInv (s : rstate) : Prop := {
   i_nopanic : panicked s = false
 }.
 
+Definition run_saw_closing (p : rpc) : bool :=
+  match p with RWaitClosed | RDone true => true | _ => false end.
+
 (** closedLock, the handlerAdded signal, the watcher and the closer: what the self-close argument needs *)
 Record WInv (s : rstate) : Prop := {
   i_cl_thr : forall t, clock s = Some (OThr t) -> thr_cl (thr s t) = true;
   i_cl_wat : clock s = Some OWatch -> wat_cl (wat s) = true;
   i_cl_main : clock s <> Some OMain;
-  i_sig : fix14 s = true -> 0 < nexth s -> wat_early (wat s) = true -> hadded s = 1;
+  i_sig : fix14 s = true -> hadded s <= 1 /\ (0 < nexth s -> wat_early (wat s) = true -> hadded s = 1);
   i_wat0 : wat s = WNone <-> main_early (mainp s) = true;
   i_watdone : wat s = WDone -> closedF s = true;
-  i_closing : closedF s = true -> closingCh s = true;
-  i_closer : closedF s = true -> closedCh s = false -> k_waiting (closerpc s) = true
+  i_closing : closedF s = closingCh s;
+  i_closedch : closedCh s = true -> closedF s = true;
+  i_closer : closedF s = true -> closedCh s = false -> k_waiting (closerpc s) = true;
+  i_kw : k_waiting (closerpc s) = true -> closedF s = true;
+  i_mclosing : run_saw_closing (mainp s) = true -> closingCh s = true;
+  i_noret_main : forall ok, mainp s <> RRH (HRet ok);
+  i_noret_wat : forall ok, wat s <> WClose (KRet ok)
 }.
